@@ -330,12 +330,48 @@ func condOf(b *ssa.BasicBlock) (text string, neg bool, ok bool) {
 	if len(b.Instrs) == 0 {
 		return "", false, false
 	}
-	ifi, isIf := b.Instrs[len(b.Instrs)-1].(*ssa.If)
+	v, n0, isIf := resolvedCond(b)
 	if !isIf {
 		return "", false, false
 	}
-	text, neg = normCond(ifi.Cond)
-	return text, neg, true
+	text, neg = normCond(v)
+	return text, neg != n0, true
+}
+
+// curEnv: the φ choices of the path a PathQuery is extending at the moment (thread.go). A condition that is a φ of
+// conditions computed on the branches (`ok = a < b` on one branch, `ok = false` on the other; `if ok`) is read as the
+// condition that was computed on this path.
+var curEnv phiEnv
+
+// resolvedCond returns the If condition of b without its negations, and whether it was negated an odd number of times.
+func resolvedCond(b *ssa.BasicBlock) (v ssa.Value, neg bool, ok bool) {
+	if len(b.Instrs) == 0 {
+		return nil, false, false
+	}
+	ifi, isIf := b.Instrs[len(b.Instrs)-1].(*ssa.If)
+	if !isIf {
+		return nil, false, false
+	}
+	v, neg = stripNot(ifi.Cond)
+	for depth := 0; depth < 4 && len(curEnv) > 0; depth++ {
+		ph, isPhi := v.(*ssa.Phi)
+		if !isPhi || ph.Comment == "&&" || ph.Comment == "||" {
+			break // a materialised short-circuit expression is read as a whole (phiImplied)
+		}
+		p, has := curEnv[ph.Block().Index]
+		if !has || p >= len(ph.Edges) {
+			break
+		}
+		if _, isC := ph.Edges[p].(*ssa.Const); isC {
+			break
+		}
+		inner, n2 := stripNot(ph.Edges[p])
+		if inner == ssa.Value(ph) {
+			break
+		}
+		v, neg = inner, neg != n2
+	}
+	return v, neg, true
 }
 
 func normCond(v ssa.Value) (string, bool) {
@@ -433,7 +469,38 @@ func factSpellings(t string, truth bool) [][2]interface{} {
 		x := strings.TrimSuffix(t, " == 0")
 		out = append(out, [2]interface{}{x + " > 0", !truth}, [2]interface{}{x + " >= 1", !truth}, [2]interface{}{x + " < 1", truth})
 	}
+	// a comparison read from the other side: "a < b" is "b > a"
+	if l, op, r, ok := splitCompare(t); ok {
+		m := " > "
+		if op == " > " {
+			m = " < "
+		}
+		out = append(out, [2]interface{}{r + m + l, truth})
+	}
 	return out
+}
+
+// splitCompare splits "L < R" / "L > R" at the only comparison operator outside brackets.
+func splitCompare(t string) (l, op, r string, ok bool) {
+	depth, at := 0, -1
+	for i := 0; i+2 < len(t); i++ {
+		switch t[i] {
+		case '(', '[', '{':
+			depth++
+		case ')', ']', '}':
+			depth--
+		}
+		if depth == 0 && t[i] == ' ' && (t[i+1] == '<' || t[i+1] == '>') && t[i+2] == ' ' {
+			if at >= 0 {
+				return "", "", "", false
+			}
+			at = i
+		}
+	}
+	if at <= 0 || strings.Contains(t, " == ") && depth == 0 && strings.Contains(t[:at], " == ") {
+		return "", "", "", false
+	}
+	return t[:at], t[at : at+3], t[at+3:], true
 }
 
 // factMatches: does the edge fact (t, tr), in any spelling, satisfy the wanted (match, truth)?
@@ -475,11 +542,10 @@ func edgeEstablishesD(b *ssa.BasicBlock, i int, match func(string) bool, truth b
 	if factMatches(t, tr, match, truth) {
 		return true
 	}
-	ifi, isIf := b.Instrs[len(b.Instrs)-1].(*ssa.If)
+	v, neg, isIf := resolvedCond(b)
 	if !isIf {
 		return false
 	}
-	v, neg := stripNot(ifi.Cond)
 	for _, f := range phiImplied(v, (i == 0) != neg, 0) {
 		if factMatches(f.text, f.truth, match, truth) {
 			return true
@@ -727,8 +793,7 @@ func edgeAllowed(b *ssa.BasicBlock, i int, as []Assume) bool {
 		}
 		// operands decided by a materialised short-circuit condition (φ&& true / φ|| false)
 		if a.Eval == nil && a.Match != nil {
-			if ifi, isIf := b.Instrs[len(b.Instrs)-1].(*ssa.If); isIf {
-				v, neg := stripNot(ifi.Cond)
+			if v, neg, isIf := resolvedCond(b); isIf {
 				for _, f := range phiImplied(v, (i == 0) != neg, 0) {
 					for _, sp := range factSpellings(f.text, f.truth) {
 						if a.Match(sp[0].(string)) && a.Truth != sp[1].(bool) {
@@ -749,8 +814,7 @@ func edgeAllowed(b *ssa.BasicBlock, i int, as []Assume) bool {
 		// the condition is a call of a boolean helper (or of a function literal the inliner produced) whose
 		// result, on this edge, implies the opposite of the assumption
 		if a.Eval == nil && a.Match != nil {
-			if ifi, isIf := b.Instrs[len(b.Instrs)-1].(*ssa.If); isIf {
-				v, neg := stripNot(ifi.Cond)
+			if v, neg, isIf := resolvedCond(b); isIf {
 				if _, isCall := v.(*ssa.Call); isCall && helperImplies(v, (i == 0) != neg, a.Match, !a.Truth, 0) {
 					return false
 				}
@@ -780,12 +844,18 @@ func (q *PathQuery) Find() (path []int, hit ssa.Instruction) {
 		b    *ssa.BasicBlock
 		from int
 		prev *item
+		env  phiEnv
 	}
-	visited := map[*ssa.BasicBlock]bool{}
+	type vkey struct {
+		b   *ssa.BasicBlock
+		env string
+	}
+	tb := threadBlocks(q.Fn)
+	visited := map[vkey]bool{}
 	var queue []*item
 	if q.From == nil {
 		queue = append(queue, &item{b: q.Fn.Blocks[0], from: 0})
-		visited[q.Fn.Blocks[0]] = true
+		visited[vkey{q.Fn.Blocks[0], ""}] = true
 	} else {
 		queue = append(queue, &item{b: q.From.Block(), from: idxIn(q.From) + 1})
 	}
@@ -811,17 +881,23 @@ func (q *PathQuery) Find() (path []int, hit ssa.Instruction) {
 			continue
 		}
 		for si, s := range it.b.Succs {
-			if !edgeAllowed(it.b, si, q.Assume) {
+			if !threadEdgeFeasible(it.b, si, it.env) {
 				continue
 			}
-			if q.EdgeOK != nil && !q.EdgeOK(it.b, si) {
+			saved := curEnv
+			curEnv = it.env
+			allowed := edgeAllowed(it.b, si, q.Assume) && (q.EdgeOK == nil || q.EdgeOK(it.b, si))
+			curEnv = saved
+			if !allowed {
 				continue
 			}
-			if visited[s] {
+			env := threadEnter(it.b, si, it.env, tb)
+			k := vkey{s, env.key()}
+			if visited[k] {
 				continue
 			}
-			visited[s] = true
-			queue = append(queue, &item{b: s, from: 0, prev: it})
+			visited[k] = true
+			queue = append(queue, &item{b: s, from: 0, prev: it, env: env})
 		}
 	}
 	return nil, nil
